@@ -87,6 +87,25 @@ def _worker(ys):
         recs = [{"typ": E["DT_YMD"], "sandwich": 1, "d.typ": E["DT_YMD"], "d.ymd.y": p.year, "d.ymd.m": p.month, "d.ymd.d": p.day,
                  "t.typ": E["DT_HMS"], "t.hms.h": p.hour, "t.hms.m": p.minute, "t.hms.s": p.second, "t.hms.ns": 0} for p in pts]
         ep = [int((p - datetime.datetime(1970, 1, 1)).total_seconds()) for p in pts]
+        # date-times whose date part is held in another representation: the same order (the time decides on one and the same day)
+        own = [datetime.datetime(y, m, dd, *t) for (m, dd) in ((1, 1), (6, 30)) for t in times]
+        for tag, mem, conv in REPR[1:]:
+            rr2 = []
+            for p in own:
+                ymd = {"y": p.year, "m": p.month, "d": p.day}
+                r = call(tu, conv, ymd)
+                dpart = {"d." + mem: r} if not isinstance(r, dict) else {"d." + mem + "." + k: v for k, v in r.items()}
+                rr2.append({"typ": E[tag], "sandwich": 1, "d.typ": E[tag], "t.typ": E["DT_HMS"], "t.hms.h": p.hour, "t.hms.m": p.minute,
+                            "t.hms.s": p.second, "t.hms.ns": 0, **dpart})
+            for i in range(len(own)):
+                for j in range(len(own)):
+                    n += 1
+                    got = call(dtu, "dt_dtcmp", dict(rr2[i]), dict(rr2[j]))
+                    exp = _sgn((own[i] - own[j]).total_seconds())
+                    if got != exp:
+                        lst = bad.setdefault("date-times", [])
+                        if len(lst) < 200:
+                            lst.append((own[i].isoformat() + " held as " + tag, own[j].isoformat(), got, exp))
         sx = [{"typ": E["DT_SEXY"], "sandwich": 0, "sexy": e} for e in ep]
         for kind, rr in (("date-times", recs), ("epoch values", sx)):
             for i in range(len(pts)):
